@@ -23,22 +23,18 @@ double @r@lamch_(char *c) {
   if (*c == 'S' || *c == 's') return @sfmin@;
   return nondet_lamch();
 }
-/* Allocators: malloc of exactly the requested number of elements, never NULL (the library aborts on NULL).  The request is dispatched to a
- * malloc call of CONSTANT size (0..8 elements): cbmc then represents each work array as a fixed-size object (bounds still exact) instead of an
- * array of symbolic size, which costs 25 GB of array constraints in this function. */
-#define EXACT(T, p, n) do { __CPROVER_assert(0 <= (n) && (n) <= 8, "allocation size within the modelled range"); \
-  if ((n) == 0) p = malloc(0); else if ((n) == 1) p = malloc(1 * sizeof(T)); else if ((n) == 2) p = malloc(2 * sizeof(T)); \
-  else if ((n) == 3) p = malloc(3 * sizeof(T)); else if ((n) == 4) p = malloc(4 * sizeof(T)); else if ((n) == 5) p = malloc(5 * sizeof(T)); \
-  else if ((n) == 6) p = malloc(6 * sizeof(T)); else if ((n) == 7) p = malloc(7 * sizeof(T)); else p = malloc(8 * sizeof(T)); \
-  __CPROVER_assume(p != NULL); } while (0)
-@T@ *@T@Malloc(int_t n) { @T@ *p; EXACT(@T@, p, n); if (g_n_alloc == 0) g_work = p; g_n_alloc++; return p; }
-int_t *intMalloc(int_t n) { int_t *p; EXACT(int_t, p, n); g_n_alloc++; return p; }
-/* superlu_malloc is called twice by ?gsrfs: second allocation = rwork[] (an array of reals), fourth = the one-column header Bjcol.Store */
+/* Allocators: malloc of exactly the requested number of elements, never NULL (the library aborts on NULL).  The order of the system is fixed per
+ * run (variant parameter NFIX), so every request has a CONSTANT size that the stub checks: cbmc then sees one fixed-size object per work array.
+ * (A symbolic size costs 25 GB of array constraints in this function; a dispatch over constant sizes multiplies every floating-point operation
+ * on work[] / rwork[] by the number of candidate objects.) */
+@T@ *@T@Malloc(int_t n) { __CPROVER_assert(n == 2 * NFIX, "work[]: 2*n elements"); @T@ *p = malloc(2 * NFIX * sizeof(@T@)); __CPROVER_assume(p != NULL); if (g_n_alloc == 0) g_work = p; g_n_alloc++; return p; }
+int_t *intMalloc(int_t n) { __CPROVER_assert(n == 2 * NFIX, "iwork[]: 2*n elements"); int_t *p = malloc(2 * NFIX * sizeof(int_t)); __CPROVER_assume(p != NULL); g_n_alloc++; return p; }
+/* superlu_malloc is called twice by ?gsrfs: second allocation = rwork[] (n reals), fourth = the one-column header Bjcol.Store */
 void *superlu_malloc(size_t n) {
   void *p;
-  __CPROVER_assert(g_n_alloc == 1 || (g_n_alloc == 3 && n == sizeof(DNformat)), "superlu_malloc: rwork[] second, Bjcol.Store fourth");
-  if (g_n_alloc == 1) { @R@ *q; size_t m = n / sizeof(@R@); EXACT(@R@, q, m); p = q; } else { p = malloc(sizeof(DNformat)); __CPROVER_assume(p != NULL); }
-  g_n_alloc++; return p;
+  __CPROVER_assert((g_n_alloc == 1 && n == NFIX * sizeof(@R@)) || (g_n_alloc == 3 && n == sizeof(DNformat)), "superlu_malloc: rwork[] second, Bjcol.Store fourth");
+  if (g_n_alloc == 1) p = malloc(NFIX * sizeof(@R@)); else p = malloc(sizeof(DNformat));
+  __CPROVER_assume(p != NULL); g_n_alloc++; return p;
 }
 void superlu_free(void *p) { g_n_free++; free(p); }
 
